@@ -17,8 +17,12 @@ REGISTRATION = {
     "text": "Kernel-checked theorems about an executable model of greedy/topK (sort branch and an exact mirror of the "
             "container/heap branch)/temperature/softmax/topP/minP and the cumulative binary-search pick, for every carrier "
             "whose comparison is a strict weak order (what float32 gives while no NaN arises), for the pinned and the "
-            "repaired (max-shift) variant: argmax at temperature 0; topK returns tokens of its input on both branches, so "
-            "a returned id is always an index into the logits (unconditional); each filter keeps a non-empty prefix and "
+            "repaired (max-shift) variant: argmax at temperature 0, and a token (never an error, never -Inf) as soon as "
+            "some logit is above -Inf; topK returns tokens of its input on both branches, so "
+            "a returned id is always an index into the logits (unconditional); topK is a correct top-k on both "
+            "branches (the heap branch via the heap order of Init/Push/Pop/up/down), hence fewer than k logits are "
+            "strictly larger than the returned one (no run contract); every call of every history, seeded or "
+            "unseeded, satisfies the single-call theorems; each filter keeps a non-empty prefix and "
             "minP is exactly the threshold filter; the pick is the first index reaching the target, never a "
             "zero-probability entry, never an index panic; the picked token lies in minP(topP(topK)) and comes from a "
             "logit that is not -Inf; a history of calls on one sampler has no state but the generator (the i-th result "
@@ -39,9 +43,9 @@ REGISTRATION = {
     "note": COMMON_NOTE + "Partial by construction: IEEE-754 rounding/overflow and math.Exp are outside the model "
             "(exp values are taken from the run; contracts re-checked per run); the grammar's own state machine "
             "(llama.cpp) is not modelled: its accepted sets are data probed from the real grammar; slices.SortFunc's order "
-            "inside groups of equal logits is not modelled (compared modulo that order); the heap branch of topK is "
-            "mirrored exactly and proved to return k tokens of its input, but that they are the k largest in "
-            "descending order is validated per run (IsTopK contract), not proved.",
+            "inside groups of equal logits is not modelled (compared modulo that order). The unseeded sampler (seed -1) "
+            "takes its numbers from the process-wide generator, which is an arbitrary external stream in the model: its "
+            "calls are tied by a witness number found after the fact (the model must return the same id for it).",
 }
 
 MODULES = ["OllamaVerif.Properties.C18", "OllamaVerif.Proofs.Sampler", "OllamaVerif.Model.Sampler"]
@@ -51,11 +55,16 @@ THEOREMS = ["OllamaVerif.C18." + t for t in (
     "sample_admissible_partial", "sample_admissible_fixed_partial", "never_neg_inf", "result_mem_filters",
     "pick_search_spec", "greedy_admissible", "hist_each_call", "unseeded_each_call", "newRng_none_iff",
     "every_call_admissible", "hist_every_call_admissible", "ghist_each_call", "maskLogits_length",
+    "sample_in_topk", "isTopK_count",
     "deterministic", "hist_nth", "Sample_indep_r", "stream_of_seed", "grammar_step_spec",
     "grammar_retry_admissible_partial", "grammar_retry_admissible_fixed_partial", "grammar_retry_greedy",
     "masked_not_neginf_accepted", "maskLogits_get", "F18_nan_instead_of_token", "F18_guard_fails",
     "F18b_greedy_keeps_leading_nan", "F18c_greedy_retry_returns_rejected", "zOps_laws")] + [
     "OllamaVerif.Sampler.pick_spec", "OllamaVerif.Sampler.afterTopK_spec", "OllamaVerif.Sampler.afterTopK_spec_fix", "OllamaVerif.Sampler.bsearch_spec",
+    # round 7: heap order of the container/heap mirror -> the heap branch of topK is a correct top-k
+    "OllamaVerif.Sampler.hdown_heap", "OllamaVerif.Sampler.hup_heap", "OllamaVerif.Sampler.hinit_heap",
+    "OllamaVerif.Sampler.hpop_heap", "OllamaVerif.Sampler.hpush_heap", "OllamaVerif.Sampler.hpopAll_spec",
+    "OllamaVerif.Sampler.topKHeap_isTopK", "OllamaVerif.Sampler.topK_isTopK_all",
 ]
 OVERLAY = {"sample/zz_verif_c18_test.go": "sample/zz_verif_c18_test.go",
            "sample/zz_verif_c18_grammar_test.go": "sample/zz_verif_c18_grammar_test.go"}
